@@ -31,7 +31,9 @@ template<int R> struct HX { template<class C, class... A> long operator()(C& c, 
 struct TTf { long operator()(std::string_view sv) const { maybe_yield(); return long(sv.size()) * 13 + (sv.size() ? (unsigned char)sv[0] : 0); } };
 struct ystream { std::string text; template<class T> ystream& operator<<(const T& v) { maybe_yield(); std::ostringstream o; o << v; text += o.str(); return *this; } };
 template<const vf::lexspec* Sp> struct QuietLexer {
+    unsigned long long scratch = 0;     // working state of the lexer object: a lexer object shared between calls makes threads race on it
     template<class It, class ES> ctpg::recognized_term match(ctpg::match_options, ctpg::source_point, It start, It end, ES&) {
+        scratch = scratch * 31 + 7;
         if (start == end) return ctpg::recognized_term{};
         long rem = 0; { It i = start; while (!(i == end) && rem < 8) { ++i; ++rem; } }
         unsigned char c = (unsigned char)*start; int t = Sp->term[c]; if (t < 0) return ctpg::recognized_term{};
